@@ -871,10 +871,26 @@ func (d *Driver) exec(st *Step, g string) {
 	case "closeBroker":
 		d.b.CloseAll()
 	default:
+		if f, ok := ExtraSteps[st.A]; ok {
+			f(d, st, g)
+			return
+		}
 		d.rec.Log("UnknownStep", "a", st.A)
 		d.inconclusive("unknown step " + st.A)
 	}
 }
+
+// ExtraSteps lets other files of this package add script steps without editing exec():
+// register in init(): ExtraSteps["myStep"] = func(d *Driver, st *Step, g string) { ... }.
+var ExtraSteps = map[string]func(d *Driver, st *Step, g string){}
+
+// Accessors for step extensions.
+func (d *Driver) Broker() *Broker  { return d.b }
+func (d *Driver) Conn() *iscp.Conn { return d.conn }
+func (d *Driver) API(g, op, obj string, kv []any, f func() (error, []any)) error {
+	return d.api(g, op, obj, kv, f)
+}
+func (d *Driver) Ctx(ms int) (context.Context, context.CancelFunc) { return d.ctx(ms) }
 
 func bufCount(s *iscp.UpstreamState) int {
 	n := 0
